@@ -46,9 +46,11 @@ struct _map_itr {
     m_map_t *m;
     map_elem *curr;
     bool removed;
+    size_t slots;       // number of table slots already walked past
 };
 
 static map_elem *hashmap_entry_find(const m_map_t *m, const char *key, bool find_empty);
+static size_t hashmap_walk_start(const m_map_t *m);
 static size_t hashmap_table_min_size_calc(size_t num_entries);
 static size_t hashmap_calc_index(const m_map_t *m, const char *key);
 static size_t hashmap_hash_string(const char *key);
@@ -79,6 +81,21 @@ static map_elem *hashmap_entry_find(const m_map_t *m, const char *key, bool find
         index = MAP_PROBE_NEXT(m, index);
     }
     return NULL;
+}
+
+/*
+ * First slot of a full walk of the table: the one right after an empty slot
+ * (there always is one, given the maximum load factor).
+ * Starting there, no probe chain is split between the beginning and the end of
+ * the walk, thus removing the current entry while walking can only shift
+ * not yet visited entries into the current slot, never an already visited one.
+ */
+static size_t hashmap_walk_start(const m_map_t *m) {
+    size_t index = 0;
+    while (index < m->table_size - 1 && m->table[index].key) {
+        index++;
+    }
+    return MAP_PROBE_NEXT(m, index);
 }
 
 /*
@@ -284,21 +301,26 @@ _public_ int m_map_itr_next(m_map_itr_t **itr) {
     M_PARAM_ASSERT(itr && *itr);
     
     m_map_itr_t *i = *itr;
+    m_map_t *m = i->m;
     if (!i->curr) {
-        /* First time: start from first elem */
-        i->curr = &i->m->table[0];
-    } else {
-        /* Normally: start from subsequent element */
-        i->curr = i->curr + 1 - i->removed;
+        /* First time: see hashmap_walk_start() */
+        i->curr = &m->table[hashmap_walk_start(m)];
+        i->slots = 0;
+    } else if (!i->removed) {
+        /* Normally: start from subsequent slot */
+        i->curr = &m->table[MAP_PROBE_NEXT(m, i->curr - m->table)];
+        i->slots++;
     }
+    /* else: run current slot again, an entry may have been shifted into it */
     
     i->removed = false;
     bool found = false;
-    for (; i->curr < &i->m->table[i->m->table_size]; i->curr++) {
+    for (; i->slots < m->table_size; i->slots++) {
         if (i->curr->key) {
             found = true;
             break;
         }
+        i->curr = &m->table[MAP_PROBE_NEXT(m, i->curr - m->table)];
     }
     
     /* Automatically free it */
@@ -392,7 +414,9 @@ _public_ int m_map_iterate(const m_map_t *m, m_map_cb fn, void *userptr) {
     M_PARAM_ASSERT(fn);
     M_PARAM_ASSERT(m_map_len(m) > 0);
     
-    MAP_FOREACH(m->table, m->table_size, {
+    size_t index = hashmap_walk_start(m);
+    for (size_t slots = 0; slots < m->table_size; slots++, index = MAP_PROBE_NEXT(m, index)) {
+        map_elem *entry = &m->table[index];
         if (!entry->key) {
             continue;
         }
@@ -408,13 +432,14 @@ _public_ int m_map_iterate(const m_map_t *m, m_map_cb fn, void *userptr) {
             return 0;
         }
         if (entry->key != key) {
-            /* Run this entry again if fn() deleted it */
-            --entry;
+            /* Run this slot again if fn() deleted its entry */
+            index = MAP_SIZE_MOD(m, index - 1);
+            slots--;
         } else if (num_entries != m->length) {
             /* Stop immediately if fn put/removed another entry */
             return -EACCES;
         }
-    });
+    }
     return 0;
 }
 
